@@ -1255,6 +1255,7 @@ package template
 //@   ensures tailshape: len(s) > 0 ==> forall(k, 0, len(s), !isnil(at(p.Cmds, len(p.Cmds) - len(s) + k)) && len(at(p.Cmds, len(p.Cmds) - len(s) + k).Args) == 1 && dyntypeis(at(at(p.Cmds, len(p.Cmds) - len(s) + k).Args, 0), "parse_IdentifierNode"))
 //@   ensures tailmerged: len(s) > 0 ==> forall(k, 0, len(s), old(PREDEF(p)) && ESCEQ(old(LASTID(p)), at(s, k)) ==> seqeq(asref(at(at(p.Cmds, len(p.Cmds) - len(s) + k).Args, 0), "parse_IdentifierNode").Ident, old(LASTID(p))))
 //@   ensures tailnames: len(s) > 0 ==> forall(k, 0, len(s), !(old(PREDEF(p)) && ESCEQ(old(LASTID(p)), at(s, k))) ==> seqeq(asref(at(at(p.Cmds, len(p.Cmds) - len(s) + k).Args, 0), "parse_IdentifierNode").Ident, at(s, k)))
+//@   demonstrates C02-builtin-escaper-name-overridden merged_by_name: len(s) > 0 ==> forall(k, 0, len(s), old(PREDEF(p)) && ESCEQ(old(LASTID(p)), at(s, k)) ==> seqeq(asref(at(at(p.Cmds, len(p.Cmds) - len(s) + k).Args, 0), "parse_IdentifierNode").Ident, old(LASTID(p))))
 //@   ensures lenrule: len(s) > 0 ==> len(p.Cmds) == len(s) + old(len(p.Cmds)) + ite(old(SPECIALFORM(p)), 1, 0) - ite(old(DUPOF(p, s)), 1, 0)
 //@   ensures kept: len(s) > 0 ==> forall(k, 0, old(len(p.Cmds)) - ite(old(DUPOF(p, s)) && !old(SPECIALFORM(p)), 1, 0), at(p.Cmds, k) == old(at(p.Cmds, k)))
 //@   ensures specialcmd: len(s) > 0 && old(SPECIALFORM(p)) && !old(DUPOF(p, s)) ==> IDENTCMD(at(p.Cmds, 1), old(LASTID(p)))
